@@ -15,6 +15,7 @@ import (
 	"fmt"
 	"sort"
 	"strings"
+	"sync"
 	"testing"
 	"testing/synctest"
 	"time"
@@ -65,7 +66,9 @@ func genHist(rt *rapid.T) HistScript {
 	}
 	n := rapid.IntRange(2, 12).Draw(rt, "steps")
 	for i := 0; i < n; i++ {
-		kinds := []string{"list", "page", "page", "all", "all", "call", "call", "call"}
+		// callduring: the call is made while a re-listing of the first page is on its way (another goroutine
+		// of the application refreshes its view of the tools)
+		kinds := []string{"list", "page", "page", "all", "all", "call", "call", "call", "callduring"}
 		if len(cur) > 0 {
 			kinds = append(kinds, "replace", "replace", "remove")
 		}
@@ -74,7 +77,7 @@ func genHist(rt *rapid.T) HistScript {
 		}
 		st := HStep{Kind: rapid.SampledFrom(kinds).Draw(rt, "kind")}
 		switch st.Kind {
-		case "call":
+		case "call", "callduring":
 			if len(cur) == 0 {
 				continue
 			}
@@ -138,10 +141,37 @@ func runHistInBubble(s HistScript) (res vt.Result) {
 		return
 	}
 	copts := &mcp.ClientOptions{}
+	var cs *mcp.ClientSession
+	var hmu sync.Mutex
+	relistedAt := 0 // clock at which the handler's own complete listing began (0: none yet)
+	var relistedSeen map[string]bool
+	var relist func() // set below: lists every page inside the list-changed handler
 	if s.Listen {
-		copts.ToolListChangedHandler = func(context.Context, *mcp.ToolListChangedRequest) {}
+		copts.ToolListChangedHandler = func(context.Context, *mcp.ToolListChangedRequest) {
+			if relist != nil {
+				relist()
+			}
+		}
 	}
 	client := mcp.NewClient(&mcp.Implementation{Name: "cli", Version: "1"}, copts)
+	// holdList: the next tools/list request waits here (its answer is on its way) until released
+	var holdList chan struct{}
+	var held chan struct{}
+	client.AddSendingMiddleware(func(next mcp.MethodHandler) mcp.MethodHandler {
+		return func(ctx context.Context, method string, req mcp.Request) (mcp.Result, error) {
+			if method == "tools/list" {
+				hmu.Lock()
+				h, sig := holdList, held
+				holdList, held = nil, nil
+				hmu.Unlock()
+				if h != nil {
+					close(sig)
+					<-h
+				}
+			}
+			return next(ctx, method, req)
+		}
+	})
 
 	// do runs f (a blocking client operation) and waits for it in virtual time.
 	do := func(f func()) bool {
@@ -158,7 +188,6 @@ func runHistInBubble(s HistScript) (res vt.Result) {
 		}
 		return false
 	}
-	var cs *mcp.ClientSession
 	var cerr error
 	if !do(func() { cs, cerr = client.Connect(context.Background(), link.ClientTransport, nil) }) || cerr != nil {
 		res.Failf("harness: connect: returned=%v err=%v", cs != nil, cerr)
@@ -215,11 +244,41 @@ func runHistInBubble(s HistScript) (res vt.Result) {
 		return lt.NextCursor, true
 	}
 	known := func(name string) bool {
-		return (doneStart > lastChange && doneSeen[name]) || (travStart > lastChange && travSeen[name])
+		hmu.Lock()
+		inHandler := relistedAt == lastChange && relistedAt != 0 && relistedSeen[name]
+		hmu.Unlock()
+		return (doneStart > lastChange && doneSeen[name]) || (travStart > lastChange && travSeen[name]) || inHandler
+	}
+	// relist is what the list-changed handler does: it lists every page at once, inside the handler. It was
+	// told about the latest change, so what it lists is the client's knowledge since that change.
+	relist = func() {
+		hmu.Lock()
+		after := lastChange
+		hmu.Unlock()
+		seen := map[string]bool{}
+		cur := ""
+		for k := 0; k < 20; k++ {
+			lt, err := cs.ListTools(context.Background(), &mcp.ListToolsParams{Cursor: cur})
+			if err != nil {
+				return
+			}
+			for _, t := range lt.Tools {
+				seen[t.Name] = true
+			}
+			if lt.NextCursor == "" {
+				hmu.Lock()
+				relistedAt, relistedSeen = after, seen
+				hmu.Unlock()
+				return
+			}
+			cur = lt.NextCursor
+		}
 	}
 	changed := func() {
 		clock++
+		hmu.Lock()
 		lastChange = clock
+		hmu.Unlock()
 		if s.Listen {
 			// the server tells the client (debounced); the client then forgets what it had cached
 			time.Sleep(time.Second)
@@ -262,10 +321,36 @@ func runHistInBubble(s HistScript) (res vt.Result) {
 			delete(defs, st.Name)
 			changed()
 			desc.WriteString("-")
-		case "call":
+		case "call", "callduring":
 			d := defs[st.Name]
 			if d == nil {
 				break
+			}
+			wasKnown := known(st.Name)
+			var release chan struct{}
+			var listDone chan struct{}
+			if st.Kind == "callduring" {
+				// another goroutine of the application re-lists the first page; its request is on its way
+				// (held in the client's sending middleware) while the call is made
+				h, sig := make(chan struct{}), make(chan struct{})
+				hmu.Lock()
+				holdList, held = h, sig
+				hmu.Unlock()
+				listDone = make(chan struct{})
+				go func() {
+					cs.ListTools(context.Background(), &mcp.ListToolsParams{})
+					close(listDone)
+				}()
+				synctest.Wait()
+				select {
+				case <-sig:
+					release = h
+					res.Class("call_made_while_a_relisting_is_on_its_way")
+				default:
+					hmu.Lock()
+					holdList, held = nil, nil
+					hmu.Unlock()
+				}
 			}
 			var args any = json.RawMessage(rawArgs(d.nodes))
 			if st.Form == "go" {
@@ -282,7 +367,15 @@ func runHistInBubble(s HistScript) (res vt.Result) {
 				res.Failf("step %d: CallTool(%s) did not return", i, st.Name)
 				return
 			}
-			if !known(st.Name) {
+			if release != nil {
+				close(release)
+			}
+			if listDone != nil {
+				do(func() { <-listDone })
+				// (what that listing of the first page taught the client is not modelled: a traversal under way is over)
+				travStart, traversing = 0, false
+			}
+			if !wasKnown {
 				// the client was never shown this definition, or only before the server's latest change
 				unjudged++
 				desc.WriteString("c")
